@@ -513,6 +513,97 @@ def eval_marker_plaintext(case):
 EVALS = {"import_order": eval_import_order, "marker_plaintext": eval_marker_plaintext, "hash": eval_hash, "ctx_hash": eval_ctx_hash, "ctx": eval_ctx, "sample": eval_sample, "setup": eval_setup, "registry": eval_registry, "registry_warm": eval_registry_warm}
 
 
+# ---------------------------------------------------------------------------
+# first use: the very first hashing / verification of a FRESH interpreter goes through a shipped context
+# ---------------------------------------------------------------------------
+FIRST_USE_SCRIPT = r"""
+import sys, json, warnings
+warnings.filterwarnings("ignore")
+spec = json.loads(sys.argv[1])
+out = {}
+try:
+    cname = spec["context"]
+    mod, _, attr = cname.partition(".")
+    if mod == "django_preset":
+        try:
+            from django.conf import settings
+            if not settings.configured:
+                settings.configure()
+        except Exception:
+            pass
+        from passlib.ext.django import utils as U
+        from passlib.context import CryptContext
+        C = CryptContext.from_string(U.get_preset_config(attr))
+    else:
+        import importlib
+        C = getattr(importlib.import_module("passlib." + mod), attr)
+    pw, ck, name = spec["password"], spec["ctxkw"], spec["scheme"]
+    if spec["mode"] == "verify_stored":
+        h = spec["hash"]
+        out["first"] = C.verify(pw, h, **ck)
+    else:
+        h = C.hash(pw, scheme=name, **ck)
+        out["hash"] = h
+        out["first"] = C.verify(pw, h, **ck)
+    out["identify"] = C.identify(h)
+    out["second"] = C.verify(pw, h, **ck)
+    out["wrong"] = C.verify(pw + "x", h, **ck)
+except BaseException as e:
+    out["error"] = type(e).__name__
+    out["error_text"] = repr(e)[:300]
+print(json.dumps(out))
+"""
+
+
+def eval_first_use(case):
+    cname, name, mode, p, ck = case["context"], case["scheme"], case["mode"], case["password"], case.get("ctxkw") or {}
+    spec = {"context": cname, "scheme": name, "mode": mode, "password": p, "ctxkw": ck}
+    if mode == "verify_stored":
+        try:
+            spec["hash"] = make_hash(dict(case, via="context"))
+        except Exception:  # noqa: BLE001
+            return []
+        if not isinstance(spec["hash"], str):
+            return []
+    r = subprocess.run([sys.executable, "-W", "ignore", "-c", FIRST_USE_SCRIPT, json.dumps(spec)], capture_output=True, text=True,
+                       env=dict(os.environ), timeout=600)
+    try:
+        got = json.loads(r.stdout.strip().splitlines()[-1])
+    except Exception:  # noqa: BLE001
+        raise core.HarnessError(f"first-use child failed rc={r.returncode}: {r.stderr[-800:]}") from None
+    key = f"C17|{cname}|first_use:{name}:{mode}:"
+    what = f"fresh interpreter, first call on {cname}: " + ("verify of a stored" if mode == "verify_stored" else "hash(scheme=") + f" {name} hash"
+    if "error" in got:
+        if mode == "hash_first" and got["error"] in ("PasswordSizeError", "PasswordValueError", "PasswordTruncateError"):
+            return []
+        return [(key + f"raises:{got['error']}", f"{what} raised {got['error_text']}")]
+    out = []
+    h = spec.get("hash") or got.get("hash")
+    disabled = name in HS.DISABLED
+    if got["identify"] != name:
+        out.append((key + "misattributed", f"{what}: identify({h!r}) = {got['identify']!r}"))
+    if disabled:
+        if got["first"] or got["second"]:
+            out.append((key + "disabled_accepts", f"{what}: verify = {got['first']!r}/{got['second']!r}"))
+        return out
+    if got["first"] is not True or got["second"] is not True:
+        out.append((key + "own_password_rejected", f"{what} {h!r}: first verify({p!r}) = {got['first']!r}, repeated = {got['second']!r}"))
+    if got["wrong"] is not False and not HS.equiv(name, p, p + "x", ck, {}):
+        out.append((key + "wrong_password_accepted", f"{what} {h!r}: verify({p + 'x'!r}) = {got['wrong']!r}"))
+    if mode == "hash_first" and not out:
+        # the hash made on first use must be a correct hash of the scheme: the (warm) plain hasher verifies it
+        try:
+            ok = HS.handler(name).verify(p, h, **{k: v for k, v in ck.items() if k in HS.g(name, "context_kwds", ())})
+        except Exception as e:  # noqa: BLE001
+            ok = f"raised {e!r}"
+        if ok is not True:
+            out.append((key + "first_hash_wrong", f"{what}: the hash {h!r} made by the first call does not verify {p!r} with the plain {name} hasher later ({ok!r})"))
+    return out
+
+
+EVALS["first_use"] = eval_first_use
+
+
 def replay(case):
     return EVALS[case["part"]](case)
 
@@ -640,6 +731,18 @@ def run(ctx):
                               "via": "context_production", "seed": ctx.seed, "n": 9, "wrongs": False})
     if skipped:
         ctx.assume(f"schemes without a backend on this host are identify-only (fixed well-formed strings): {sorted(skipped)}")
+    # first use in a fresh interpreter: context x usable scheme x {verify a stored hash first, make a hash first}
+    first = []
+    for cname, schemes in listed.items():
+        for sch in schemes:
+            if not HS.usable(sch):
+                continue
+            ck0 = HS.ctx_grid(sch, True)[0]
+            if not HS.admissible(sch, PASSWORDS[0], ck0):
+                continue
+            for mode in ("verify_stored", "hash_first"):
+                first.append({"part": "first_use", "context": cname, "scheme": sch, "mode": mode, "password": PASSWORDS[0],
+                              "ctxkw": ck0, "seed": ctx.seed, "via": mode})
     # plaintext entries that begin with a disabled-account marker character
     for cname, schemes in listed.items():
         for sch in schemes:
@@ -672,6 +775,9 @@ def run(ctx):
     acc3 = core.pmap(work_cases, [{"cases": reg[i::64]} for i in range(64) if reg[i::64]])
     ctx.merge(acc3, part="registry")
     ctx.log("fresh-process registry probes done")
+    acc4 = core.pmap(work_cases, [{"cases": first[i::64]} for i in range(64) if first[i::64]])
+    ctx.merge(acc4, part="first_use")
+    ctx.log(f"{len(first)} fresh-process first-use probes done")
     ctx.assume("passlib.apps.master_context is neither exported (__all__) nor documented: not judged")
     ctx.assume("scheme lists are whatever import-time probing produced on this host (crypt() support)")
     ctx.assume("disabled-account hashers listed in a context must claim their own markers and verify nothing")
